@@ -413,3 +413,128 @@ Proof. vm_compute. auto. Qed.
 Example someone_is_refused : fst (run (new_post_steps 0 unverified_user) st_some) = Refuse E_NOTPERMITTED /\
   fst (run (cross_post_steps 0 verified_user cooling_user own_article) st_some) = Refuse E_COOLDOWN.
 Proof. vm_compute. auto. Qed.
+
+(* ================================================================== the site configuration: read-only system boards *)
+Lemma tolower_zero c : (tolower c =? 0) = (c =? 0).
+Proof.
+  unfold tolower. destruct (65 <=? c) eqn:A; destruct (c <=? 90) eqn:B; cbn [andb]; try reflexivity.
+  apply Z.leb_le in A. destruct (Z.eqb_spec (c + 32) 0); destruct (Z.eqb_spec c 0); try reflexivity; lia.
+Qed.
+Lemma cprefix_map_tolower l : cprefix (map tolower l) = map tolower (cprefix l).
+Proof.
+  induction l as [| c l IH]; [reflexivity |]. cbn [map cprefix]. rewrite tolower_zero.
+  destruct (c =? 0); [reflexivity |]. cbn [map]. rewrite IH. reflexivity.
+Qed.
+(* Cstrcasecmp = 0 exactly when the two C strings are equal up to the case of A..Z *)
+Lemma cstrcasecmp_zero_iff a b : cstrcasecmp a b = 0 <-> map tolower (cprefix a) = map tolower (cprefix b).
+Proof. unfold cstrcasecmp. rewrite cstrcmp_zero_iff, !cprefix_map_tolower. tauto. Qed.
+
+Definition same_board_name (a b : list Z) : Prop :=
+  map tolower (cprefix (fixlen BOARDID_SZ a)) = map tolower (cprefix (fixlen BOARDID_SZ b)).
+Lemma is_readonly_board_iff sec allpost name :
+  is_readonly_board sec allpost name = true <-> same_board_name name sec \/ same_board_name name allpost.
+Proof. unfold is_readonly_board, same_board_name. rewrite orb_true_iff, !Z.eqb_eq, !cstrcasecmp_zero_iff. tauto. Qed.
+
+(* for names as they occur (no NUL, at most 12 bytes): the name itself, up to case *)
+Lemma same_board_name_ids a b : id_ok 12 a -> id_ok 12 b -> (same_board_name a b <-> map tolower a = map tolower b).
+Proof.
+  intros [Na La] [Nb Lb]. unfold same_board_name.
+  rewrite !cprefix_fixlen by (split; [assumption | unfold BOARDID_SZ; lia]). tauto.
+Qed.
+
+Lemma posting_rules_readonly w : w_readonly w = true -> posting_rules w = false.
+Proof. intros H. unfold posting_rules. rewrite H. reflexivity. Qed.
+Lemma may_write_readonly w : w_readonly w = true -> may_write w = false.
+Proof. intros H. unfold may_write. rewrite (posting_rules_readonly w H). rewrite andb_false_r. reflexivity. Qed.
+
+(* a board the configuration names as read-only: all four operations refuse, and leave no trace *)
+Lemma readonly_configured_refuses : forall sec allpost name now w ws a st,
+  w_readonly w = is_readonly_board sec allpost name -> same_board_name name sec \/ same_board_name name allpost ->
+  (fst (run (new_post_steps now w) st) <> Accept /\ frame (snd (run (new_post_steps now w) st)) = frame st) /\
+  (fst (run (recommend_steps now w a) st) <> Accept /\ frame (snd (run (recommend_steps now w a) st)) = frame st) /\
+  (fst (run (edit_post_steps w a) st) <> Accept /\ frame (snd (run (edit_post_steps w a) st)) = frame st) /\
+  (fst (run (cross_post_steps now ws w a) st) <> Accept /\ frame (snd (run (cross_post_steps now ws w a) st)) = frame st).
+Proof.
+  intros sec allpost name now w ws a st Hw Hn.
+  assert (RO : w_readonly w = true) by (rewrite Hw; apply is_readonly_board_iff; exact Hn).
+  pose proof (posting_rules_readonly w RO) as PR.
+  destruct (refusal_no_trace now w ws a st) as (T1 & T2 & T3 & T4).
+  assert (N1 : fst (run (new_post_steps now w) st) <> Accept).
+  { intros H. apply accept_implies_rules_new_post in H. rewrite (may_write_readonly w RO) in H. discriminate. }
+  assert (N2 : fst (run (recommend_steps now w a) st) <> Accept).
+  { intros H. apply accept_implies_rules_recommend_partial in H. destruct H as (_ & H & _). congruence. }
+  assert (N3 : fst (run (edit_post_steps w a) st) <> Accept).
+  { intros H. apply accept_implies_rules_edit_post_partial in H. destruct H as (_ & H & _). congruence. }
+  assert (N4 : fst (run (cross_post_steps now ws w a) st) <> Accept).
+  { intros H. apply accepted_true in H. rewrite cross_accept_iff in H.
+    repeat (apply andb_prop in H; destruct H as [H ?]).
+    repeat match goal with E : (postperm _ =? 0) = true |- _ => rewrite postperm_ok in E end.
+    congruence. }
+  repeat split; auto.
+Qed.
+
+(* and a board the configuration does not name is not read-only, whatever the compiled-in names were *)
+Lemma not_configured_not_readonly sec allpost name :
+  ~ same_board_name name sec -> ~ same_board_name name allpost -> is_readonly_board sec allpost name = false.
+Proof.
+  intros H1 H2. destruct (is_readonly_board sec allpost name) eqn:E; [| reflexivity].
+  apply is_readonly_board_iff in E. tauto.
+Qed.
+
+Definition n_whoami : list Z := [87; 104; 111; 65; 109; 73].
+Definition n_whoami_lc : list Z := [119; 104; 111; 97; 109; 105].
+Definition n_allpost : list Z := [65; 76; 76; 80; 79; 83; 84].
+Definition n_security : list Z := [83; 101; 99; 117; 114; 105; 116; 121].
+Example renamed_allpost :     (* BN_ALLPOST = whoami: WhoAmI is read-only, ALLPOST no longer; a longer / shorter name is another board *)
+  is_readonly_board n_security n_whoami_lc n_whoami = true /\ is_readonly_board n_security n_whoami_lc n_allpost = false /\
+  is_readonly_board n_security n_allpost n_allpost = true /\ is_readonly_board n_security (n_whoami ++ [50]) n_whoami = false /\
+  is_readonly_board n_security [87; 104; 111] n_whoami = false.
+Proof. vm_compute. repeat split. Qed.
+
+(* ================================================================== the writer's uid: SHM->cooldowntime[uid-1] *)
+Lemma uid_slot_inj u v : uid_slot u = uid_slot v -> u = v.
+Proof. unfold uid_slot. lia. Qed.
+Lemma cd_get_set_same s slot v : cd_get (cd_set s slot v) slot = v.
+Proof. unfold cd_set. cbn [cd_get]. rewrite Z.eqb_refl. reflexivity. Qed.
+Lemma cd_get_set_other s slot slot' v : slot' <> slot -> cd_get (cd_set s slot' v) slot = cd_get s slot.
+Proof. intros H. unfold cd_set. cbn [cd_get]. destruct (Z.eqb_spec slot' slot); [contradiction | reflexivity]. Qed.
+(* every user reads his own word: a planting at the writer's uid is what the writer's decision sees, and a planting at
+   any other uid — smaller, larger, equal modulo 2^16 or modulo any table size — never is *)
+Lemma cd_of_uid_own s uid v : cd_of_uid (cd_set s (uid_slot uid) v) uid = v.
+Proof. apply cd_get_set_same. Qed.
+Lemma cd_of_uid_other s uid other v : other <> uid -> cd_of_uid (cd_set s (uid_slot other) v) uid = cd_of_uid s uid.
+Proof. intros H. apply cd_get_set_other. intros E. apply uid_slot_inj in E. contradiction. Qed.
+Lemma cooldown_word_own_slot : forall s uid other v,
+  cd_of_uid (cd_set s (uid_slot uid) v) uid = v /\
+  (other <> uid -> cd_of_uid (cd_set s (uid_slot other) v) uid = cd_of_uid s uid).
+Proof. intros s uid other v. split; [apply cd_of_uid_own | apply cd_of_uid_other]. Qed.
+Lemma cd_of_uid_others : forall fuel l s uid maxusers, others_ok uid maxusers l fuel = true ->
+  cd_of_uid (plant_others s l fuel) uid = cd_of_uid s uid.
+Proof.
+  induction fuel as [| f IH]; intros l s uid maxusers H; [reflexivity |].
+  cbn [plant_others]. destruct l as [| u [| c [| p r]]]; try reflexivity.
+  cbn [others_ok] in H. repeat (apply andb_prop in H; destruct H as [H ?]).
+  rewrite (IH r _ uid maxusers) by assumption. apply cd_of_uid_other.
+  match goal with E : negb (u =? uid) = true |- _ => apply negb_true_iff, Z.eqb_neq in E; exact E end.
+Qed.
+
+(* an active cool-down refuses a new post, a comment and a cross-post; the verdict is a function of the facts only — the
+   writer's uid enters through the word read at his own slot and nowhere else *)
+Lemma active_cooldown_refuses : forall now w ws a st, cooldown_active w = true ->
+  fst (run (new_post_steps now w) st) <> Accept /\
+  fst (run (recommend_steps now w a) st) <> Accept /\
+  fst (run (cross_post_steps now ws w a) st) <> Accept.
+Proof.
+  intros now w ws a st C. repeat split; intros H.
+  - apply accept_implies_rules_new_post in H. unfold may_write in H. rewrite C in H. cbn in H. rewrite andb_false_r in H. discriminate.
+  - apply accept_implies_rules_recommend_partial in H. destruct H as (_ & _ & _ & H). congruence.
+  - apply accepted_true in H. rewrite cross_accept_iff in H.
+    repeat (apply andb_prop in H; destruct H as [H ?]).
+    match goal with E : negb (cooldown_active w) = true |- _ => rewrite C in E; discriminate E end.
+Qed.
+
+Example high_uid_reads_own_word :     (* uid 2 000 000 cooling, uid 1 / 20 000 / 65 537-th neighbours idle: the writer's word decides *)
+  cd_of_uid (cd_set (plant_others [] [1; -600; 0; 20000; -600; 0; 2000000 - 65536; -600; 0] 9) (uid_slot 2000000) (600, 15)) 2000000 = (600, 15) /\
+  cd_of_uid (cd_set (plant_others [] [1; 600; 15] 3) (uid_slot 65537) (-600, 0)) 65537 = (-600, 0) /\
+  cd_of_uid (plant_others [] [1; 600; 15] 3) 65537 = (-1, 0).
+Proof. vm_compute. repeat split. Qed.
